@@ -190,6 +190,9 @@ func TestC16(t *testing.T) {
 				cl = append(cl, "split+extend")
 			}
 			cl = append(cl, fmt.Sprintf("docs=%d", len(a.Docs)))
+			if i == 2 && strings.Contains(strings.Join(a.Texts(), ""), "extend schema") && !strings.Contains("\n"+strings.Join(a.Texts(), ""), "\nschema") {
+				cl = append(cl, "implied-schema-extended")
+			}
 			if a.Late {
 				cl = append(cl, "ill-formed-member-extended-in-last-load")
 			}
@@ -240,7 +243,7 @@ func TestC16(t *testing.T) {
 		var mut *Mutation
 		if rapid.IntRange(0, 4).Draw(rt, "illFormed") == 0 {
 			kinds := []string{"ref-field-type", "ref-arg-type", "ref-union-member", "ref-interface", "dup-type", "dup-field", "reserved-field", "field-returns-input",
-				"arg-takes-output", "iface-missing-field", "iface-wrong-type", "iface-extra-required-arg", "union-member-not-object", "dir-wrong-location-type", "ref-directive-on-type"}
+				"arg-takes-output", "iface-missing-field", "iface-wrong-type", "iface-extra-required-arg", "union-member-not-object", "dir-wrong-location-type", "ref-directive-on-type", "schema-root-input-type", "schema-unknown-operation"}
 			for _, k := range rapid.Permutation(kinds).Draw(rt, "illKinds") {
 				if ms, m, ok := Mutate(rt, s, k); ok {
 					s = ms
@@ -256,6 +259,13 @@ func TestC16(t *testing.T) {
 			Arrange(rt, s, o, "s", false, 4), // split into successive loads
 			Arrange(rt, s, o, "x", true, 1),  // members in extend blocks
 			Arrange(rt, s, o, "sx", true, 4)) // both
+		if mut != nil && mut.Tail != "" {
+			// a violation written as raw text is part of the set in every arrangement
+			for _, a := range c.Arrangements {
+				last := len(a.Docs) - 1
+				a.Docs[last] = append(a.Docs[last], Piece{Text: mut.Tail + "\n"})
+			}
+		}
 		if mut != nil {
 			// the offending member arrives alone, in an extend block loaded after everything else
 			for _, docs := range LateForms(s, mut, o) {
